@@ -2,6 +2,12 @@
 import json
 
 CHECKS = {
+    'C01': ('sufficient-statistic coverage of merge (W_acc subset of W_merge, same reduction family, same-named pairing, path coverage), default add = merge(new()), merge_states fold, update_state combines batch with running state, wrapper delegation name-to-name',
+            'field read/write-set (effect) analysis over all accumulator classes + CFG must-pass queries + table agreement'),
+    'C05': ('every failure store is followed by notify_all on both queue conditions on all paths; failure stored before stop announced; enqueue_done true once a failure is recorded; producer waits re-check the stop flag; timed-out waits reach only raise TimeoutError; maybe_stop wakes both sides; consumer iterators stop queue and pool on every exceptional path',
+            'CFG must-pass-through path queries with interprocedural must-notify summaries over the lockset engine'),
+    'C11': ('merge never mutates an operand-owned object; operand-aliasing fields are never mutated in place; result() is side-effect free and no cached_property caches merge-updated fields; empty operand accepted wherever an empty receiver is; merge_states only mutates the first state',
+            'effect/alias (taint) analysis of every merge-like method, interprocedural through self methods'),
     'C04': ('lockset + CFG analysis of IteratorQueue: CV discipline per calling context, predicate loops, lock balance, lock-order acyclicity, wake-up obligations, end-of-stream payload, single transfer through put/get wrappers',
             'context-sensitive lockset dataflow over a hand-built exceptional CFG; must-pass-through path queries; protocol table'),
 }
